@@ -1,6 +1,5 @@
 /- C13 helper lemmas: sign-bit arithmetic on bit patterns. -/
 import Tetl.C13.Model
-import Tetl.C13.Spec
 import Tetl.C14.Model
 import Tetl.C14.Spec
 namespace Tetl.C13.Lemmas
